@@ -138,7 +138,7 @@ CHECKS = {
             "C13_get_path (<= size sectors or a reported error on any table), C13_partition_count (partitions x 8192 <= file size) and C13_partition_fuel (the model's fuel never cuts the scan short), C13_file_table (<= len/24 entries), C13_cue_tracks / C13_cue_fuel, "
             "C13_roland_volumes / _perf_scan / _chain (<= count, 512, 65536), C13_window_bound (audio <= content), C13_keygroups (the keygroup chain is walked number_of_keygroups times whatever next-addresses are stored). "
             "Tie + oracle: random bytes (bare / behind AKAI or Roland signatures / sparse 2.9 MB / as cue body) and generated AKAI, Roland, CDDA images with 1-3 targeted corruptions (SAT/FAT specials, in-range links, 2-cycles, self loops, long cycles outside any file, noise; sizes, counts, pointer lists, headers; kilobyte-long cue titles and lines, thousands of tracks, huge numbers) run ls (3 levels) + export in a forked child with RLIMIT_CPU = 10 s + 20 s/MiB and RLIMIT_AS growth = 256 MiB + 32 x size; "
-            "AKAI/Roland/random inputs are also run through the Lean model and must agree on outcome class and results. Found and fixed: cubic regex in make_export_name (6bd604a); re-finds D7 (Roland FAT cycle) when the guard is removed."
+            "AKAI/Roland/random inputs are also run through the Lean model and must agree on outcome class and results. Quadratic shapes by construction: 600000 blank cue lines, three tracks sharing a 40000-character title, a 60000-cluster descending Roland chain, 3700 AKAI heads entering one directory run, damaged program files (self / backward keygroup links, count bytes 255). Found and fixed: cubic regex in make_export_name (6bd604a), cue parser quadratic in lines (a28bdcb), Roland decoder re-walking resolved tails (04ba142), stereo-ending expression (435767a), AKAI decoder re-walking directory runs (0664bf8); re-finds D7 (Roland FAT cycle) when the guard is removed. Recorded (known_findings.json): work / output / memory proportional to what the tables NAME rather than to the image (aliased AKAI entries, overlapping cue windows, Roland pointer fan-out, program count bytes) and the listing padded to the widest name."
         ),
         design_ref="DESIGN.md §4 C13",
     ),
